@@ -7,18 +7,22 @@ through that table by the model's own `findLineIdx` (`Layout.sl`, `Layout.el`), 
 `Token` read against a `Layout`.  `layoutOps Y` is the token-level lexer that hands out a token list against the layout `Y`
 (`tokenOps` of Model/Parser.lean is the special case of one line without indentation).
 
-`LinE Y k e ts`     — `ts` renders the expression `e` at precedence level `k` (Spec/ExprSyntax `Lin`, with the `line` fields the
-                      parser stores: the line of the operator token, of the leaf token, of the opening brace).
-`LinSimple Y s ts`  — `ts` renders the simple statement `s` (expression, `令 … 设为 …`, 输出, 抛出, 结束循环, 继续循环): one run of glued tokens.
-`LinN Y d nd ts`    — `ts` renders the node `nd` (a statement, the statements of a block, the 再如/否则 tail of a 如果, the 拦截
-                      handlers of a body, a function body, the members of a 定义) whose lines are indented by `d`.
+`LinX Y cfg k nd ts` — `ts` renders the expression node `nd` at precedence level `k` (`cfg` = the parser's `AsVarAssign`): operators,
+                      assignments, member / index chains, `其 p`, calls with 得到, 新建, method-call chains, list and dictionary
+                      literals, a `，` after an operand — with the `line` fields the parser stores (the line of the operator token,
+                      of the leaf token, of the opening `{ （ 【 以`).  `LinE Y k e ts` is `LinX Y true k (.expr e) ts`.
+`LinSimple Y s ts`  — `ts` renders the simple statement `s` (expression, `以 x（m）…`, `令 … 设为 …`, 输出, 抛出, 结束循环, 继续循环): one run of
+                      glued tokens.
+`LinN Y d nd ts`    — `ts` renders the node `nd` (a statement, the statements of a block — `；` included —, the 再如/否则 tail of a 如果,
+                      the 拦截 handlers of a body, a function body, the members of a 定义) whose lines are indented by `d`.
 `LinPairs`, `LinImport(s)` — the pairs of the block form `令：`, the 导入 statements.
 `LinStmt`, `LinBlock`, `LinExec`, `LinProgram` are the instances asked for.
 
 The layout discipline, in one place:
  * inside a simple statement, and inside the header of a compound one, consecutive tokens are `Glued`: no statement line break
    between them (same line, or the first is one of `， 、 { 【 ： ？`, or the second one of `】 }` — `Layout.brk`);
- * consecutive statements of a block are `Sep`arated by a statement line break, and each starts on a line indented by the
+ * consecutive statements of a block are `Sep`arated by a statement line break — or a simple statement is followed by `；`, which
+   is an (empty) statement of the block itself and needs no line break after it — and each starts on a line indented by the
    block's indentation `d`;
  * the `：` / `？` that opens a block is on a line indented by `d`, the block's statements are indented by `d + 1`;
  * 再如 / 否则 / 拦截 start on a line indented like the statement they belong to.
@@ -114,27 +118,158 @@ def parseLaidOut (v : Variant) (Y : Layout) (fuel : Nat) (ts : List Token) : Out
 /-- the identifier node of a token -/
 def Layout.idOf (Y : Layout) (t : Token) : Ident := ⟨Y.sl t, runesToString t.literal⟩
 
-/-- expressions (the fragment of Spec/ExprSyntax), with the lines the parser stores -/
-inductive LinE (Y : Layout) : Nat → Expr → List Token → Prop
-  | id (t : Token) : t.type = cTypeIdentifier → LinE Y 7 (.id (Y.idOf t)) [t]
-  | str (t : Token) : t.type = cTypeString → LinE Y 7 (.str (Y.sl t) (runesToString t.literal)) [t]
+/-- an optional `得到 X` after a call -/
+def yieldToks : Option (Token × Token) → List Token
+  | none => []
+  | some (g, x) => [g, x]
+
+def Layout.yieldId (Y : Layout) : Option (Token × Token) → Option Ident
+  | none => none
+  | some (_, x) => some (Y.idOf x)
+
+def YieldOK : Option (Token × Token) → Prop
+  | none => True
+  | some (g, x) => g.type = cTypeGetResultW ∧ x.type = cTypeIdentifier
+
+/-- the token types that make an assignment: `为` everywhere, `=` too where the parser runs with `AsVarAssign` (everywhere but
+directly inside `【 】`, where `=` separates key and value) -/
+def lv4Types (cfg : Bool) : List Nat := if cfg then lv4ValidTypes ++ lv4VarAssignExtra else lv4ValidTypes
+
+/-- the expression ends with a method-call chain that is still open: `以 x（m）` without 得到 at its right edge (a `、` after it
+would continue the chain) -/
+def openEnd : Expr → Bool
+  | .mcall _ _ _ none => true
+  | .logic _ _ _ b => openEnd b
+  | .arith _ _ _ b => openEnd b
+  | .assign _ _ b => openEnd b
+  | _ => false
+
+/-- the pieces of an expression that own a run of tokens -/
+inductive ENode where
+  | expr (e : Expr)
+  /-- `e1、e2、e3`: the arguments of a call -/
+  | args (es : List Expr)
+  /-- `f：a、b）` / `f）`: what follows the `（` (and 新建) of a call -/
+  | fcall (name : Ident) (params : List Expr)
+  /-- `、（m：a）、（n）`: the further calls of a method-call chain -/
+  | chain (cs : List Expr)
+  /-- the items of a list literal after the first one -/
+  | items (es : List Expr)
+  /-- the `k = v` pairs of a dictionary literal after the first one -/
+  | kvs (kvs : List (Expr × Expr))
+
+/-- Expressions, with the lines the parser stores.  `LinX Y cfg k nd ts`: `ts` renders the node `nd`; for an expression, at
+precedence level `k`:
+   1  或   2  且   3  one comparison   4  one assignment (`为`; `=` too if `cfg`)   5  + −   6  * / | %, and an operand followed by a `，`
+   7  member chains `x 之 p`, `x # i`, `x # { e }`, `其 p`, and the basic forms: identifier (numbers are identifiers), text, `{ e }`,
+      calls `（f：a、b）得到 X`, `（新建 T：a）`, method calls `以 x（m：a）、（n）得到 X`, lists `【a b】`, dictionaries `【k = v …】`, `【】`, `【=】`.
+`cfg` is the parser's `AsVarAssign` (false directly inside `【 】`); the other nodes have level 0. -/
+inductive LinX (Y : Layout) : Bool → Nat → ENode → List Token → Prop
+  | id {cfg : Bool} (t : Token) : t.type = cTypeIdentifier → LinX Y cfg 7 (.expr (.id (Y.idOf t))) [t]
+  | str {cfg : Bool} (t : Token) : t.type = cTypeString → LinX Y cfg 7 (.expr (.str (Y.sl t) (runesToString t.literal))) [t]
   /-- `{ e }` is `e`, its top node on the line of the `{` -/
-  | brace (l r : Token) (e : Expr) (ts : List Token) :
-      l.type = cTypeStmtQuoteL → r.type = cTypeStmtQuoteR → LinE Y 1 e ts → LinE Y 7 (e.setLine (Y.sl l)) (l :: ts ++ [r])
-  | up (k : Nat) (e : Expr) (ts : List Token) : 1 ≤ k → LinE Y (k + 1) e ts → LinE Y k e ts
-  | or (t : Token) (a b : Expr) (ta tb : List Token) :
-      t.type = cTypeLogicOrW → LinE Y 1 a ta → LinE Y 2 b tb → LinE Y 1 (.logic (Y.sl t) cLogicOR a b) (ta ++ t :: tb)
-  | and (t : Token) (a b : Expr) (ta tb : List Token) :
-      t.type = cTypeLogicAndW → LinE Y 2 a ta → LinE Y 3 b tb → LinE Y 2 (.logic (Y.sl t) cLogicAND a b) (ta ++ t :: tb)
-  | cmp (t : Token) (a b : Expr) (ta tb : List Token) :
-      t.type ∈ lv3ValidTypes → LinE Y 4 a ta → LinE Y 4 b tb →
-      LinE Y 3 (.logic (Y.sl t) (lookupD logicTypeMap t.type 0) a b) (ta ++ t :: tb)
-  | add (t : Token) (a b : Expr) (ta tb : List Token) :
-      t.type ∈ addSubTypes → LinE Y 5 a ta → LinE Y 6 b tb →
-      LinE Y 5 (.arith (Y.sl t) (lookupD addSubOverride t.type addSubDefault) a b) (ta ++ t :: tb)
-  | mul (t : Token) (a b : Expr) (ta tb : List Token) :
-      t.type ∈ mulDivTypes → LinE Y 6 a ta → LinE Y 7 b tb →
-      LinE Y 6 (.arith (Y.sl t) (lookupD mulDivTypeMap t.type 0) a b) (ta ++ t :: tb)
+  | brace {cfg : Bool} (l r : Token) (e : Expr) (ts : List Token) :
+      l.type = cTypeStmtQuoteL → r.type = cTypeStmtQuoteR → LinX Y true 1 (.expr e) ts →
+      LinX Y cfg 7 (.expr (e.setLine (Y.sl l))) (l :: ts ++ [r])
+  | up {cfg : Bool} (k : Nat) (e : Expr) (ts : List Token) : 1 ≤ k → LinX Y cfg (k + 1) (.expr e) ts → LinX Y cfg k (.expr e) ts
+  | or {cfg : Bool} (t : Token) (a b : Expr) (ta tb : List Token) :
+      t.type = cTypeLogicOrW → LinX Y cfg 1 (.expr a) ta → LinX Y cfg 2 (.expr b) tb →
+      LinX Y cfg 1 (.expr (.logic (Y.sl t) cLogicOR a b)) (ta ++ t :: tb)
+  | and {cfg : Bool} (t : Token) (a b : Expr) (ta tb : List Token) :
+      t.type = cTypeLogicAndW → LinX Y cfg 2 (.expr a) ta → LinX Y cfg 3 (.expr b) tb →
+      LinX Y cfg 2 (.expr (.logic (Y.sl t) cLogicAND a b)) (ta ++ t :: tb)
+  | cmp {cfg : Bool} (t : Token) (a b : Expr) (ta tb : List Token) :
+      t.type ∈ lv3ValidTypes → LinX Y cfg 4 (.expr a) ta → LinX Y cfg 4 (.expr b) tb →
+      LinX Y cfg 3 (.expr (.logic (Y.sl t) (lookupD logicTypeMap t.type 0) a b)) (ta ++ t :: tb)
+  | add {cfg : Bool} (t : Token) (a b : Expr) (ta tb : List Token) :
+      t.type ∈ addSubTypes → LinX Y cfg 5 (.expr a) ta → LinX Y cfg 6 (.expr b) tb →
+      LinX Y cfg 5 (.expr (.arith (Y.sl t) (lookupD addSubOverride t.type addSubDefault) a b)) (ta ++ t :: tb)
+  | mul {cfg : Bool} (t : Token) (a b : Expr) (ta tb : List Token) :
+      t.type ∈ mulDivTypes → LinX Y cfg 6 (.expr a) ta → LinX Y cfg 7 (.expr b) tb →
+      LinX Y cfg 6 (.expr (.arith (Y.sl t) (lookupD mulDivTypeMap t.type 0) a b)) (ta ++ t :: tb)
+  /-- `x 为 e`, `x = e`, `x # 1 = e`, `其 p = e`: the target is an identifier or a member expression; one assignment, no chain -/
+  | assign {cfg : Bool} (t : Token) (a b : Expr) (ta tb : List Token) :
+      t.type ∈ lv4Types cfg → a.isAssignable = true → LinX Y cfg 5 (.expr a) ta → LinX Y cfg 5 (.expr b) tb →
+      LinX Y cfg 4 (.expr (.assign (Y.sl t) a b)) (ta ++ t :: tb)
+  /-- an operand followed by a single `，` (the comma is swallowed when the parser looks for what continues the operand) -/
+  | commaAfter {cfg : Bool} (c : Token) (e : Expr) (ts : List Token) :
+      c.type = cTypeCommaSep → LinX Y cfg 7 (.expr e) ts → LinX Y cfg 6 (.expr e) (ts ++ [c])
+  /-- `其 p` (no line is stored) -/
+  | this {cfg : Bool} (kw p : Token) : kw.type = cTypeObjThisW → p.type = cTypeIdentifier →
+      LinX Y cfg 7 (.expr (.member 0 cRootTypeProp .nil cMemberID (some (Y.idOf p)) .nil)) [kw, p]
+  /-- `x 之 p` (no line is stored) -/
+  | dot {cfg : Bool} (d p : Token) (r : Expr) (tr : List Token) :
+      d.type ∈ [cTypeObjDotW, cTypeObjDotIIW] → p.type = cTypeIdentifier → LinX Y cfg 7 (.expr r) tr →
+      LinX Y cfg 7 (.expr (.member 0 cRootTypeExpr r cMemberID (some (Y.idOf p)) .nil)) (tr ++ [d, p])
+  /-- `x # i`, `i` an identifier (a number) -/
+  | idxId {cfg : Bool} (h i : Token) (r : Expr) (tr : List Token) :
+      h.type = cTypeMapHash → i.type = cTypeIdentifier → LinX Y cfg 7 (.expr r) tr →
+      LinX Y cfg 7 (.expr (.member (Y.sl h) cRootTypeExpr r cMemberIndex none (.id (Y.idOf i)))) (tr ++ [h, i])
+  /-- `x # "text"` -/
+  | idxStr {cfg : Bool} (h i : Token) (r : Expr) (tr : List Token) :
+      h.type = cTypeMapHash → i.type = cTypeString → LinX Y cfg 7 (.expr r) tr →
+      LinX Y cfg 7 (.expr (.member (Y.sl h) cRootTypeExpr r cMemberIndex none (.str (Y.sl i) (runesToString i.literal))))
+        (tr ++ [h, i])
+  /-- `x # { e }` (the index keeps its own lines) -/
+  | idxExpr {cfg : Bool} (h l rb : Token) (r : Expr) (tr : List Token) (e : Expr) (te : List Token) :
+      h.type = cTypeMapHash → l.type = cTypeStmtQuoteL → rb.type = cTypeStmtQuoteR → LinX Y cfg 7 (.expr r) tr →
+      LinX Y true 1 (.expr e) te →
+      LinX Y cfg 7 (.expr (.member (Y.sl h) cRootTypeExpr r cMemberIndex none e)) (tr ++ h :: l :: te ++ [rb])
+  /-- `（f：a、b）`, `（f）`, optionally `得到 X` -/
+  | call {cfg : Bool} (l : Token) (n : Ident) (ps : List Expr) (tc : List Token) (yl : Option (Token × Token)) :
+      l.type = cTypeFuncQuoteL → LinX Y true 0 (.fcall n ps) tc → YieldOK yl →
+      LinX Y cfg 7 (.expr (.call (Y.sl l) (some n) ps (Y.yieldId yl))) (l :: tc ++ yieldToks yl)
+  /-- `（新建 T：a、b）`, `（新建 T）` -/
+  | new {cfg : Bool} (l nw : Token) (n : Ident) (ps : List Expr) (tc : List Token) :
+      l.type = cTypeFuncQuoteL → nw.type = cTypeObjNewW → LinX Y true 0 (.fcall n ps) tc →
+      LinX Y cfg 7 (.expr (.new (Y.sl l) (some n) ps)) (l :: nw :: tc)
+  /-- `以 x（m：a）、（n）`, optionally `得到 X` (the calls of the chain hold line 0) -/
+  | mcall {cfg : Bool} (kw l : Token) (root : Expr) (tr : List Token) (n : Ident) (ps : List Expr) (tc : List Token)
+      (cs : List Expr) (tcs : List Token) (yl : Option (Token × Token)) :
+      kw.type = cTypeVarOneW → LinX Y true 1 (.expr root) tr → l.type = cTypeFuncQuoteL → LinX Y true 0 (.fcall n ps) tc →
+      LinX Y true 0 (.chain cs) tcs → YieldOK yl →
+      LinX Y cfg 7 (.expr (.mcall (Y.sl kw) root (.call 0 (some n) ps none :: cs) (Y.yieldId yl)))
+        (kw :: tr ++ l :: tc ++ tcs ++ yieldToks yl)
+  /-- `【】` -/
+  | arrEmpty {cfg : Bool} (l r : Token) : l.type = cTypeArrayQuoteL → r.type = cTypeArrayQuoteR →
+      LinX Y cfg 7 (.expr (.arr (Y.sl l) [])) [l, r]
+  /-- `【=】` -/
+  | hmEmpty {cfg : Bool} (l eq r : Token) : l.type = cTypeArrayQuoteL → eq.type = cTypeAssignMark → r.type = cTypeArrayQuoteR →
+      LinX Y cfg 7 (.expr (.hm (Y.sl l) [])) [l, eq, r]
+  /-- `【a b c】` — items are juxtaposed; written `【a，b，c】` each item but the last ends with its `，` (`commaAfter`) -/
+  | arr {cfg : Bool} (l r : Token) (e1 : Expr) (t1 : List Token) (es : List Expr) (ts : List Token) :
+      l.type = cTypeArrayQuoteL → r.type = cTypeArrayQuoteR → LinX Y false 1 (.expr e1) t1 → LinX Y true 0 (.items es) ts →
+      LinX Y cfg 7 (.expr (.arr (Y.sl l) (e1 :: es))) (l :: t1 ++ ts ++ [r])
+  /-- `【k = v  k2 = v2】` (`【k = v，k2 = v2】`) -/
+  | hm {cfg : Bool} (l eq r : Token) (k : Expr) (tk : List Token) (v : Expr) (tv : List Token) (kvs : List (Expr × Expr))
+      (ts : List Token) :
+      l.type = cTypeArrayQuoteL → eq.type = cTypeAssignMark → r.type = cTypeArrayQuoteR → LinX Y false 1 (.expr k) tk →
+      LinX Y false 1 (.expr v) tv → LinX Y true 0 (.kvs kvs) ts →
+      LinX Y cfg 7 (.expr (.hm (Y.sl l) ((k, v) :: kvs))) (l :: tk ++ eq :: tv ++ ts ++ [r])
+  -- the other nodes
+  | argsOne (e : Expr) (te : List Token) : LinX Y true 1 (.expr e) te → LinX Y true 0 (.args [e]) te
+  /-- an argument that is followed by `、` must not end with an open method-call chain -/
+  | argsCons (p : Token) (e : Expr) (te : List Token) (es : List Expr) (ts : List Token) :
+      LinX Y true 1 (.expr e) te → openEnd e = false → p.type = cTypePauseCommaSep → LinX Y true 0 (.args es) ts →
+      LinX Y true 0 (.args (e :: es)) (te ++ p :: ts)
+  | fcall0 (f rp : Token) : f.type = cTypeIdentifier → rp.type = cTypeFuncQuoteR → LinX Y true 0 (.fcall (Y.idOf f) []) [f, rp]
+  | fcallArgs (f colon rp : Token) (es : List Expr) (ta : List Token) :
+      f.type = cTypeIdentifier → colon.type = cTypeFuncCall → rp.type = cTypeFuncQuoteR → LinX Y true 0 (.args es) ta →
+      LinX Y true 0 (.fcall (Y.idOf f) es) (f :: colon :: ta ++ [rp])
+  | chainNil : LinX Y true 0 (.chain []) []
+  | chainCons (p l : Token) (n : Ident) (ps : List Expr) (tc : List Token) (cs : List Expr) (tcs : List Token) :
+      p.type = cTypePauseCommaSep → l.type = cTypeFuncQuoteL → LinX Y true 0 (.fcall n ps) tc → LinX Y true 0 (.chain cs) tcs →
+      LinX Y true 0 (.chain (.call 0 (some n) ps none :: cs)) (p :: l :: tc ++ tcs)
+  | itemsNil : LinX Y true 0 (.items []) []
+  | itemsCons (e : Expr) (te : List Token) (es : List Expr) (ts : List Token) :
+      LinX Y false 1 (.expr e) te → LinX Y true 0 (.items es) ts → LinX Y true 0 (.items (e :: es)) (te ++ ts)
+  | kvsNil : LinX Y true 0 (.kvs []) []
+  | kvsCons (eq : Token) (k : Expr) (tk : List Token) (v : Expr) (tv : List Token) (kvs : List (Expr × Expr)) (ts : List Token) :
+      eq.type = cTypeAssignMark → LinX Y false 1 (.expr k) tk → LinX Y false 1 (.expr v) tv → LinX Y true 0 (.kvs kvs) ts →
+      LinX Y true 0 (.kvs ((k, v) :: kvs)) (tk ++ eq :: tv ++ ts)
+
+/-- `ts` renders the expression `e` at precedence level `k` (where `=` assigns) -/
+abbrev LinE (Y : Layout) (k : Nat) (e : Expr) (ts : List Token) : Prop := LinX Y true k (.expr e) ts
 
 /-- `a、b、c`: identifiers separated by `、` -/
 inductive LinIds (Y : Layout) : List Ident → List Token → Prop
@@ -145,8 +280,9 @@ inductive LinIds (Y : Layout) : List Ident → List Token → Prop
 /-- `e1、e2、e3`: expressions separated by `、` -/
 inductive LinArgs (Y : Layout) : List Expr → List Token → Prop
   | one (e : Expr) (ts : List Token) : LinE Y 1 e ts → LinArgs Y [e] ts
+  /-- an expression that is followed by `、` must not end with an open method-call chain -/
   | cons (p : Token) (e : Expr) (te : List Token) (es : List Expr) (ts : List Token) :
-      LinE Y 1 e te → p.type = cTypePauseCommaSep → LinArgs Y es ts → LinArgs Y (e :: es) (te ++ p :: ts)
+      LinE Y 1 e te → openEnd e = false → p.type = cTypePauseCommaSep → LinArgs Y es ts → LinArgs Y (e :: es) (te ++ p :: ts)
 
 /-- the pieces of tree that own a run of lines -/
 inductive Node where
@@ -167,7 +303,16 @@ def vdTypeOf (asg : Token) : Nat := if asg.type = cTypeAssignConstW then cVDType
 
 /-- (1) the simple statements: one run of glued tokens -/
 inductive LinSimple (Y : Layout) : Stmt → List Token → Prop
-  | exprStmt (e : Expr) (ts : List Token) : LinE Y 1 e ts → Y.Glued ts → LinSimple Y (.expr e) ts
+  /-- an expression as a statement; a statement that starts with 以 is read as `以 … 遍历` or as a method-call statement (below) -/
+  | exprStmt (e : Expr) (ts : List Token) : LinE Y 1 e ts → Y.Glued ts → (Y.peek ts).type ≠ cTypeVarOneW →
+      LinSimple Y (.expr e) ts
+  /-- `以 x（m：a）、（n）`, optionally `得到 X`, as a statement -/
+  | mcallStmt (kw l : Token) (root : Expr) (tr : List Token) (n : Ident) (ps : List Expr) (tc : List Token)
+      (cs : List Expr) (tcs : List Token) (yl : Option (Token × Token)) :
+      kw.type = cTypeVarOneW → LinE Y 1 root tr → l.type = cTypeFuncQuoteL → LinX Y true 0 (.fcall n ps) tc →
+      LinX Y true 0 (.chain cs) tcs → YieldOK yl → Y.Glued (kw :: tr ++ l :: tc ++ tcs ++ yieldToks yl) →
+      LinSimple Y (.expr (.mcall (Y.sl kw) root (.call 0 (some n) ps none :: cs) (Y.yieldId yl)))
+        (kw :: tr ++ l :: tc ++ tcs ++ yieldToks yl)
   /-- `令 a、b 设为 e` (`设为`, `=`, `恒为`) -/
   | declStmt (kw asg : Token) (ids : List Ident) (ti : List Token) (e : Expr) (te : List Token) :
       kw.type = cTypeDeclareW → LinIds Y ids ti → asg.type ∈ vdAssignKeywords → LinE Y 1 e te →
@@ -249,6 +394,13 @@ inductive LinN (Y : Layout) : Nat → Node → List Token → Prop
   | blockCons (d : Nat) (s : Stmt) (ss : List Stmt) (t1 t2 : List Token) :
       LinN Y d (.stmt s) t1 → Y.ind (Y.peek t1) = d → LinN Y d (.block ss) t2 → Y.Sep t1 t2 →
       LinN Y d (.block (s :: ss)) (t1 ++ t2)
+  /-- a simple statement directly followed by `；`: no line break is needed before the `；` -/
+  | blockConsSemi (d : Nat) (s : Stmt) (ss : List Stmt) (t1 t2 : List Token) :
+      LinSimple Y s t1 → Y.ind (Y.peek t1) = d → LinN Y d (.block ss) t2 → t2 ≠ [] → (Y.peek t2).type = cTypeStmtSep →
+      LinN Y d (.block (s :: ss)) (t1 ++ t2)
+  /-- a `；` where a statement could start is an empty statement (it holds line 0); what follows it needs no line break -/
+  | blockEmpty (d : Nat) (semi : Token) (ss : List Stmt) (t2 : List Token) :
+      semi.type = cTypeStmtSep → Y.ind semi = d → LinN Y d (.block ss) t2 → LinN Y d (.block (.empty 0 :: ss)) (semi :: t2)
   -- (3) declarations
   /-- `如何 名？` body -/
   | funcStmt (d : Nat) (kw name q : Token) (x : ExecBlock) (tx : List Token) :
